@@ -1,0 +1,7 @@
+//go:build verif
+
+package vrf
+
+// IsCanonicalY exposes isCanonicalY for differential verification runs.
+// It is only compiled with the "verif" build tag.
+func IsCanonicalY(x []byte) bool { return isCanonicalY(x) }
